@@ -47,6 +47,7 @@ struct gm_state {
 	uint64_t prng;
 	uint32_t handled, goal;
 	uint32_t frozen, nbuf;
+	uint32_t relays, pad2;
 	double frozen_at;
 	struct gm_buf *bufs;
 };
@@ -82,7 +83,7 @@ uint64_t FN(gm_state_digest)(const void *st)
 	const struct gm_state *s = st;
 	if(!s)
 		return 0x1234;
-	uint64_t h = fold(fold(fold(s->hash, s->prng), ((uint64_t)s->handled << 32) | s->goal), s->frozen * 3 + s->nbuf * 16);
+	uint64_t h = fold(fold(fold(s->hash, s->prng), ((uint64_t)s->handled << 32) | s->goal), s->frozen * 3 + s->nbuf * 16 + ((uint64_t)s->relays << 20));
 	for(const struct gm_buf *b = s->bufs; b; b = b->next)
 		h = fold_bytes(fold(h, b->len), b->bytes, b->len);
 	return h;
@@ -421,6 +422,17 @@ void FN(gm_ProcessEvent)(uint64_t me, double now, unsigned type, const void *con
 	s->hash = fold(fold(s->hash, dbits(now)), ((uint64_t)type << 32) | size);
 	s->hash = fold_bytes(s->hash, content, size);
 
+	if(type == GM_HB_TYPE)
+		s->relays = g->relay_budget;
+	else if(s->relays && !is_chain && (sm(&s->prng) & 1)) {
+		/* relay the event unchanged, zero delay: the copy is order-equivalent to the event being handled (valid: it does
+		 * not precede it), whoever receives it */
+		s->relays--;
+		uint64_t r = sm(&s->prng);
+		OUT.zero_delay_sent++;
+		s->hash = fold(s->hash, 0x4e1a7 + (r >> 8) % g->n_lps);
+		A(ScheduleNewEvent)((r >> 8) % g->n_lps, now, type, content, size);
+	}
 	if(type == GM_HB_TYPE && s->handled < s->goal + g->post_goal) {
 		double d = g->time_mode == 1 ? 1.0 : 0.5 + (double)(sm(&s->prng) >> 11) * 0x1p-53;
 		if(g->hb_scale > 1)
